@@ -171,7 +171,7 @@ theorem dom_el (σ : Store) (id tag attrs cs) :
     dom σ (.el id tag attrs cs) = [.elem id tag (evalAttrs σ attrs) (domList σ cs)] := by simp [dom]
 theorem dom_text (σ : Store) (id s) : dom σ (.text id s) = [.text id s] := by simp [dom]
 theorem dom_dynText (σ : Store) (id sig) :
-    dom σ (.dynText id sig) = [.text id (natToStr (σ.get sig))] := by simp [dom]
+    dom σ (.dynText id sig) = [.text id (dynTextStr (σ.get sig))] := by simp [dom]
 theorem dom_dynView (σ : Store) (a b sig alts cur) :
     dom σ (.dynView a b sig alts cur) = [.comment a] ++ domList σ cur ++ [.comment b] := by simp [dom]
 theorem dom_show (σ : Store) (a b sig cs) :
